@@ -65,6 +65,8 @@ class World:
         self.policy = ("default",)
         self.ref_versions = collections.deque()   # reference deque of retained ids
         self.problems = []
+        self.kept = []               # caller-owned Rdataset objects handed to the zone
+        self.poked = 0
         init_id = self.z._versions[-1].id
         self.ref_versions.append(init_id)
         self.contents = {init_id: {}}
@@ -188,6 +190,12 @@ class World:
                 t.add(NB, 5, TXT)
             elif x == "serial":
                 t.update_serial()
+            elif x == "put_rds":
+                # hand the zone a caller-owned mutable Rdataset object and keep it
+                rds = dns.rdataset.Rdataset(dns.rdataclass.IN, dns.rdatatype.TXT, ttl=5)
+                rds.add(TXT)
+                t.replace(NB, rds)
+                self.kept.append(rds)
             self.wops.append(x)
         elif op == "wcommit":
             if self.wtxn is None:
@@ -215,6 +223,14 @@ class World:
             self.wops = []
             if self.retained() != before:
                 self.problems.append(("rollback-changed-versions", "%s -> %s" % (before, self.retained())))
+        elif op == "poke":
+            # the caller mutates its own Rdataset objects after the commit; committed
+            # versions and open readers must not notice
+            if not self.kept or self.wtxn is not None:
+                return False
+            self.poked += 1
+            for rds in self.kept:
+                rds.add(dns.rdata.from_text("IN", "TXT", '"poked%d"' % self.poked), 1)
         elif op == "maxv":
             z.set_max_versions(ev[1])
             self.policy = ("never",) if ev[1] is None else ("max", ev[1])
@@ -262,6 +278,10 @@ class World:
         if not trigger and ids != list(self.ref_versions):
             # between triggers nothing may change
             P.append(("retention-changed-without-trigger", "after %r retained %s, expected %s" % (ev, ids, list(self.ref_versions))))
+        # the newest committed version still holds exactly what was committed
+        if ids and zm.real_zone_snapshot(z) != self.contents[ids[-1]]:
+            P.append(("committed-version-changed", "after %r the newest committed version differs from what was committed: %s vs %s" % (
+                ev, zm.fmt_snapshot(zm.real_zone_snapshot(z)), zm.fmt_snapshot(self.contents[ids[-1]]))))
         # zone.nodes is the newest version's map
         if z.nodes is not z._versions[-1].nodes:
             P.append(("published-map", "zone.nodes is not the newest version's map"))
@@ -306,7 +326,8 @@ class World:
 
         return (self.kind, self.relativize, tuple((vid - newest, ckey(vid)) for vid in ids),
                 tuple(sorted(vid - newest for t, vid in self.readers if t is not None)),
-                self.policy, None if self.wtxn is None else tuple(self.wops), newest % 2)
+                self.policy, None if self.wtxn is None else tuple(self.wops), newest % 2,
+                (len(self.kept) > 0, self.poked))
 
 
 def events(w, max_commits, max_readers):
@@ -327,10 +348,12 @@ def events(w, max_commits, max_readers):
             evs.append(("wbegin",))
     else:
         if len(w.wops) < 2:
-            for x in ("add_a2", "del_a", "add_b", "serial"):
+            for x in ("add_a2", "del_a", "add_b", "serial", "put_rds"):
                 evs.append(("wop", x))
         evs.append(("wcommit",))
         evs.append(("wrollback",))
+    if w.kept and w.wtxn is None and w.poked < 1:
+        evs.append(("poke",))
     for n in (1, 2, None):
         evs.append(("maxv", n))
     evs.append(("policy", "even"))
@@ -527,6 +550,10 @@ def run_immutability(case):
 def recheck(case):
     if case["mode"] == "immut":
         return [("C11/" + s, w) for s, w in run_immutability(case)]
+    if case["mode"] == "sched":
+        from . import c12
+        h, probs = c12.run_one(case["cfg"], case["choices"])
+        return [("C11/sched/" + s, w) for s, w in probs]
     probs, _, _ = run_step(case)
     return [("C11/" + s, w) for s, w in probs]
 
@@ -561,6 +588,47 @@ def expand(state, col):
         col.sample({"cfg": cfg, "history": hist_json}, limit=2)
 
 
+def _sched_task(task, col):
+    """Reader open racing a commit (line-level schedules, via the C12 harness): the version a
+    reader pins must stay retained and its content fixed for the reader's whole life."""
+    from . import c12
+    from .. import sched as S
+    cfg, prefix, bound = task
+    keep = ("reader-version-not-retained", "reader-partial-state", "version-ids", "deadlock", "published-map-stale")
+
+    def make(pfx):
+        h, probs = c12.run_one(cfg, pfx)
+        col.count("evaluations")
+        col.count("schedules")
+        col.count("transitions", h.sched.npoints)
+        col.outcome("sched:" + (probs[0][0] if probs else "ok"))
+        for s_, w_ in probs:
+            if s_ in keep or s_.startswith("thread-exception"):
+                col.violation("C11/sched/" + s_, "%s (schedule %s)" % (w_, h.sched.choices),
+                              {"mode": "sched", "cfg": cfg, "choices": list(h.sched.choices)})
+        return h.sched
+
+    S.explore(make, bound, prefix)
+
+
+def sched_part(ctx):
+    from . import c12
+    from .. import sched as S
+    cfgs = []
+    for kind in ("versioned", "btree"):
+        for plan in (("commit",), ("commit", "commit")):
+            name = "%s W%d R1 %s line" % (kind, len(plan), "/".join(plan))
+            cfgs.append(({"name": name, "kind": kind, "W": len(plan), "R": 1, "plan": list(plan), "level": "line", "upoints": 1},
+                         ctx.pick(1, 2) if len(plan) == 2 else 2))
+    tasks = []
+    for cfg, bound in cfgs:
+        h, probs = c12.run_one(cfg, [])
+        for k in S.children(h.sched, [], bound):
+            tasks.append((cfg, k, bound))
+    ctx.extra["schedule_configs"] = [c["name"] for c, b in cfgs]
+    ctx.pmap(_sched_task, tasks)
+
+
 def run(ctx):
     ctx.rule = ("BFS over event histories (reader open latest/by id/by serial incl. missing, reader close, writer "
                 "begin/op/commit/rollback, set_max_versions 1|2|None, custom/default pruning policy) on the real "
@@ -582,6 +650,7 @@ def run(ctx):
             cfg = {"kind": kind, "relativize": rel}
             init.append(((kind, rel, "init"), (cfg, (), limits)))
     engines.bfs(ctx, init, expand, max_depth=depth)
+    sched_part(ctx)
     # the depth cap is the stated bound, not an accident
     ctx.caps[:] = []
     ctx.extra["depth_bound_reached"] = True
